@@ -49,7 +49,7 @@ def strip_kinds(v):
             return v
         return {k: strip_kinds(x) for k, x in v.items()}
     if isinstance(v, list):
-        return [strip_kinds(x) for x in v]
+        return {'seq': [strip_kinds(x) for x in v]}
     return v
 
 
